@@ -193,7 +193,10 @@ def main():
             groups.setdefault(key, []).append(c)
     batches = []
     for key in sorted(groups):
-        g = groups[key]
+        g = [c for c in groups[key] if c.get('depth') != 100]
+        for c in groups[key]:
+            if c.get('depth') == 100:      # big payloads: one case per batch, spread over the shards
+                batches.append([c])
         for i in range(0, len(g), a.batch):
             batches.append(g[i:i + a.batch])
     sys.setrecursionlimit(3000)
